@@ -27,15 +27,19 @@ CLAIMED = {
     "C05": (
         "Coq proof (one-hole contexts, congruence lemma, monotonicity in the information order) over the evaluation model + metamorphic oracle on ahbicht",
         "Theorems C05_hint_and_operand / C05_attach_fc / C05_swap_operands / C05_definite_is_stable (Props/C05.v) hold for every context, expression and assignment; "
-        "redundant brackets leave no trace in the tree (C01). The same relations are executed on ahbicht at every applicable position of sampled expressions.",
-        "Trusted: as C04; the bracket clause rests on the parser model of C01.",
+        "redundant brackets leave no trace in the tree (C01). Beyond that (Proofs/C05_runs.v): the compositional semantics factors through the flattening, so the grouping inside a run of one operator -- "
+        "which C01 leaves open -- and C01's redundant brackets leave the outcome unchanged whenever both trees are valid (C05_outcome_independent_of_run_grouping, C05_any_resolution_same_outcome, "
+        "C05_redundant_brackets_partial); C05_regrouping_validity says exactly when regrouping changes validity (a single hint directly paired with a single format constraint under O/X; witness "
+        "C05_run_grouping_can_change_validity, interpretation I-C05). The relations are executed on ahbicht at every applicable position of sampled expressions, incl. every rotation inside runs.",
+        "Trusted: as C04; the bracket clause rests on the parser model of C01 and on reading 'redundant brackets' as brackets that keep the tree (I-C05, DESIGN.md section 7).",
         "DESIGN.md section 5 C05",
     ),
     "C06": (
         "Coq proof by structural induction (same invariant as C04) over the evaluation model + correspondence + all-assignments oracle",
         "Theorems C06_invalid_always / C06_valid_never (Props/C06.v): a structural predicate `valid` decides, for every assignment at once, whether evaluation raises the "
         "invalid-expression error; C06_ahb lifts this to AHB expressions (every generated content evaluation result) and C06_validity_check proves that the model of is_valid_expression's "
-        "try-every-result loop answers true iff every condition part is valid. Correspondence and oracle: all trees <= 3 leaves x all assignments; is_valid_expression vs the structural criterion and vs Model/Validity.v.",
+        "try-every-result loop answers true iff every condition part is valid; C06_validity_loop_under_every_schedule / C06_validity_check_under_every_schedule lift the loop to a task tree "
+        "(one gathered coroutine per generated result, each storing its result in a context variable before it evaluates): every schedule returns the structural verdict and every evaluation sees its own result. Correspondence and oracle: all trees <= 3 leaves x all assignments; is_valid_expression vs the structural criterion and vs Model/Validity.v.",
         "Trusted: as C04; Model/Validity.v as a model of is_valid_expression (validated by the validity-check oracle on every run).",
         "DESIGN.md section 5 C06",
     ),
@@ -94,7 +98,7 @@ CLAIMED = {
     "C16": (
         "Coq proof by the same simulation theorem (relation: equal rows except at the replaced nodes) + correspondence + 'replace by Kann' oracle",
         "Props/C16.v: replacing the invalid expression of any subset of nodes by 'Kann' leaves every other reported row identical, keeps positions and exceptions, and the node itself is IS_OPTIONAL with the reason as hint; "
-        "invalid pool entries count as selectable (same offered values).",
+        "invalid pool entries count as selectable (C16_pool_entry_selectable: such an entry is among the offered values of its pool).",
         "Trusted: as C13.",
         "DESIGN.md section 5 C16",
     ),
